@@ -4,6 +4,7 @@ package main
 // repository functions, and havoc for everything else.
 
 import (
+	"fmt"
 	"go/types"
 	"sort"
 	"strings"
@@ -146,6 +147,16 @@ func (e *Exec) callStatic(callee *ssa.Function, args []Val, sig *types.Signature
 	}
 	if ct := e.P.Contracts[name]; ct != nil && !ct.Inline {
 		return e.callByContract(ct, callee, args, sig, in)
+	} else if ct != nil && ct.Inline && !e.silent {
+		// inlined at the call site, but its preconditions are still obligations of the caller
+		env := e.callEnv(ct, callee, args, sig, e.st, nil)
+		for k, rq := range ct.Requires {
+			if t, err := env.EvalBool(rq.E); err == nil {
+				line := e.P.srcLine(instrPos(in))
+				e.vc.Oblige("requires", fmt.Sprintf("%s[%d]@%s", name, k, trunc(line, 50)), "precondition of "+name+": "+rq.Text+" @ "+e.P.posString(instrPos(in)), e.P.posString(instrPos(in)), e.g, t, e.root.inputs)
+				e.vc.Assume(e.g, t)
+			}
+		}
 	}
 	if e.canInline(callee) {
 		return e.inlineCall(callee, args, nil, in)
